@@ -52,7 +52,7 @@ def main():
         print("demo with change rc=%d, without rc=%d" % (rc, rc2))
     pk = os.environ.get("SEED_TEST_PKGS")
     if pk:
-        rc, o = sh("go build ./... && go test -vet=off -count=1 %s" % pk, cwd=wt, timeout=1500)
+        rc, o = sh("go build ./... && go test -vet=off -count=1 -skip 'SEED|Seed' %s" % pk, cwd=wt, timeout=1500)
         out["confirmed"]["existing_tests_with_change"] = {"pkgs": pk, "rc": rc, "tail": o[-600:]}
         print("existing tests rc=%d" % rc)
     res = {}
